@@ -274,6 +274,10 @@ def run(ctx):
                "state %s is carried from one candidate image to the next" % extra)
     implications(ctx, g)
     walk_shape(ctx, g)
+    ctx.clauses.append("canonicity comparison and next-undefined search look at every operation 0..=dim() (T4)")
+    gb = [b for d, b in sorted(ctx.facts.bodies.items()) if d.startswith("generators::dset_generators::") and "{closure" not in d]
+    ctx.scan(gb)
+    index_ranges_inclusive(ctx, "T4-index-ranges", gb, g, 4)
     ctx.clauses.append("only complete D-sets are emitted (T3)")
     es = [(bi, si, s) for bi, si, s in ex.assigns() if s["place"]["l"] == 0 and s["rv"]["k"] == "aggregate" and s["rv"].get("variant") == "Some"]
     ctx.floor("Some(..) in DSet extract", len(es), 1)
